@@ -184,6 +184,9 @@ int main(int argc, char** argv)
     // watchdog: a case that does not finish is a hang (exit 87); the driver replays the saved
     // program with its own timeout before calling it anything
     signal(SIGALRM, [](int) { _exit(87); });
+    // time limit of the shard (SIGTERM from the driver): stop before the next case, keep the statistics
+    static volatile sig_atomic_t stop_requested = 0;
+    signal(SIGTERM, [](int) { stop_requested = 1; });
     Stats   stats;
     CurFile cur;
     cur.open(out + "/cur-" + shard + ".prog");
@@ -194,6 +197,14 @@ int main(int argc, char** argv)
     bool ok = rc::check(
         [&]
         {
+            if (stop_requested && !failed)
+            {
+                alarm(0);
+                write_file(out + "/stats-" + shard + ".json", stats_json(stats, spec, config));
+                write_file(out + "/stopped-" + shard, "time limit\n");
+                std::fflush(nullptr);
+                _exit(0);
+            }
             Program p = *gen;
             if (p.ops.size() > spec.max_ops)
                 p.ops.resize(spec.max_ops);
